@@ -51,25 +51,29 @@ def analysed_functions(prop):
         ident = '%s@%s:%d' % (fn.name, fn.relfile, fn.line)
         if ident not in want:
             continue
-        names = set()
-        for p in fn.params:
-            if p.get('name'):
-                names.add(p['name'])
-        for nid, v in fn.nodes.items():
-            if v['k'] == 'DeclStmt':
-                for dd in v.get('decls', []):
-                    if dd.get('name') and not dd.get('static'):
-                        names.add(dd['name'])
-        # do not touch names that are also used as member names / other identifiers in the function
-        members = set()
-        for nid, v in fn.nodes.items():
-            if v['k'] == 'MemberExpr' and v.get('name'):
-                members.add(v['name'])
-            if v['k'] == 'DeclRefExpr' and v.get('rk') in ('global', 'function', 'enumerator', 'staticmember') and v.get('name'):
-                members.add(v['name'])
-        names = sorted(n for n in names if n not in members and len(n) > 1 and not n.startswith('__'))
-        out.append((fn.relfile, fn.line, fn.endline, names, fn.name))
+        out.append(function_entry(fn))
     return out
+
+
+def function_entry(fn):
+    names = set()
+    for p in fn.params:
+        if p.get('name'):
+            names.add(p['name'])
+    for nid, v in fn.nodes.items():
+        if v['k'] == 'DeclStmt':
+            for dd in v.get('decls', []):
+                if dd.get('name') and not dd.get('static'):
+                    names.add(dd['name'])
+    # do not touch names that are also used as member names / other identifiers in the function
+    members = set()
+    for nid, v in fn.nodes.items():
+        if v['k'] == 'MemberExpr' and v.get('name'):
+            members.add(v['name'])
+        if v['k'] == 'DeclRefExpr' and v.get('rk') in ('global', 'function', 'enumerator', 'staticmember') and v.get('name'):
+            members.add(v['name'])
+    names = sorted(n for n in names if n not in members and len(n) > 1 and not n.startswith('__'))
+    return (fn.relfile, fn.line, fn.endline, names, fn.name)
 
 
 def apply(tree, funcs, family):
